@@ -21,7 +21,7 @@ echo "== quick check against a scratch copy of /repo with the change applied (VE
 SCR=$(mktemp -d)
 mkdir -p $SCR/repo && cp -r /repo/mininec $SCR/repo/ && rm -rf $SCR/repo/mininec/__pycache__
 patch -p1 -s -d $SCR/repo -i $D/patch.diff || { echo "apply failed"; rm -rf $SCR; exit 2; }
-VERIF_REPO=$SCR/repo VERIF_WORLDS=$WORLDS VERIF_SKIP_SELFTEST=1 VERIF_REPLAY_DIR=$SCR/replays VERIF_EVIDENCE_DIR=$SCR/ev VERIF_MAX_REPORTS=3 timeout 1500 /venv/bin/python /verif/run_check.py C14 --tier quick > $D/check_with.txt 2>&1
+VERIF_REPO=$SCR/repo VERIF_WORLDS=$WORLDS VERIF_SKIP_SELFTEST=1 VERIF_REPLAY_DIR=$SCR/replays VERIF_EVIDENCE_DIR=$SCR/ev VERIF_MAX_REPORTS=3 timeout 1500 /venv/bin/python ${VERIF_CHECKER:-/verif/run_check.py} C14 --tier quick > $D/check_with.txt 2>&1
 echo "check rc=$?" | tee -a $D/check_with.txt
 rm -rf $SCR
 grep -A2 "^VIOLATION" $D/check_with.txt | cut -c1-300 | head -12
